@@ -41,6 +41,7 @@ def run(ctx):
         if fd:
             LY.lut_legal(ctx, L)
             S.dt_minlen(ctx, L)
+            S.cm_minlen(ctx, L)
             fdseg.seg_const_fd(ctx, L)
         else:
             S.seg_const(ctx, L)
